@@ -19,7 +19,7 @@ LOCAL INSTANCE FiniteSetsExt
 CONSTANTS Mode,        \* "shapes" | "cases"
           MaxNodes, MaxLinks,
           Seed, Variants, Generic, Corners,   \* per shape: Variants decorations x (Generic + Corners) points
-          Family,      \* "base" | "opts" (all 64 option combinations, negative values)
+          Family,      \* "base" | "opts" (64 option combinations, negative values) | "neg" (negative values, no option) | "neutral"
           Shard, NShards
 
 -----------------------------------------------------------------------------
@@ -68,7 +68,12 @@ ExtraShapes == <<
   [n |-> 6, edges |-> <<<<1, 3>>, <<2, 3>>, <<3, 4>>, <<4, 5>>, <<4, 6>>, <<5, 3>>>>, orig |-> <<"ideal", "mainstream", NoneK, NoneK, "ramp_in", NoneK>>, dest |-> <<NoneK, NoneK, NoneK, NoneK, NoneK, "congested">>],
   \* two mainstream origins and a ramp at their merge; two ramps and a simplified ramp on a chain (same-named controls of different element types)
   [n |-> 4, edges |-> <<<<1, 3>>, <<2, 3>>, <<3, 4>>>>, orig |-> <<"mainstream", "mainstream", "ramp_out", NoneK>>, dest |-> <<NoneK, NoneK, NoneK, "congested">>],
-  [n |-> 5, edges |-> <<<<1, 2>>, <<2, 3>>, <<3, 4>>, <<4, 5>>>>, orig |-> <<"ramp_out", "simp_limited", "ramp_in", "ramp_out", NoneK>>, dest |-> <<NoneK, NoneK, NoneK, NoneK, "congested">>]
+  [n |-> 5, edges |-> <<<<1, 2>>, <<2, 3>>, <<3, 4>>, <<4, 5>>>>, orig |-> <<"ramp_out", "simp_limited", "ramp_in", "ramp_out", NoneK>>, dest |-> <<NoneK, NoneK, NoneK, NoneK, "congested">>],
+  \* a long link (12 segments: two-digit segment indices) after a mainstream origin, a ramp, a second long link
+  [n |-> 3, edges |-> <<<<1, 2>>, <<2, 3>>>>, orig |-> <<"mainstream", "ramp_out", NoneK>>, dest |-> <<NoneK, NoneK, "free">>, long |-> {1}],
+  [n |-> 4, edges |-> <<<<1, 2>>, <<2, 3>>, <<2, 4>>>>, orig |-> <<"ideal", NoneK, NoneK, NoneK>>, dest |-> <<NoneK, NoneK, "congested", "free">>, long |-> {2}],
+  \* two entering and three leaving links at one node
+  [n |-> 6, edges |-> <<<<1, 3>>, <<2, 3>>, <<3, 4>>, <<3, 5>>, <<3, 6>>>>, orig |-> <<"mainstream", "ramp_in", NoneK, NoneK, NoneK, NoneK>>, dest |-> <<NoneK, NoneK, NoneK, "free", "congested", "free">>]
   >>
 
 -----------------------------------------------------------------------------
@@ -83,6 +88,7 @@ RhoCritT == <<"33.5", "30", "36.25", "28", "38", "32", "35">>
 VFreeT  == <<"102", "110", "95", "120", "105", "98", "115">>
 AT      == <<"1.867", "2", "1.5", "2.25", "1.375", "1.75", "1.625">>
 BetaT   == <<"1", "3", "0.5", "2", "1.5", "0.75", "2.5">>
+PairBetaT == <<"1", "1", "2", "2", "0.5", "0.5", "3">>
 CT      == <<"2000", "1500", "2500", "1200", "1800">>
 RampSeq == <<"ramp_out", "ramp_in", "simp_limited", "simp_unlimited">>
 DestSeq == <<"free", "congested">>
@@ -103,15 +109,22 @@ VslOf(j, k, N) == LET c == (2 * j + 3 * k) % 7
 \* the decorated network of shape s under variant k (all parameters pairwise distinct per slot)
 NetOf(s, k) ==
   LET E == s.edges
-      intA == Family = "opts"     \* integer exponent so that negative densities stay defined
+      intA == Family \in {"opts", "neg"}     \* integer exponent so that negative densities stay defined
+      \* decoration classes: 0 all parameters pairwise distinct per slot; 1 the usual case of a homogeneous motorway
+      \* (same rho_max, rho_crit, v_free, a, L and default turn rates everywhere; lanes and segment counts still
+      \* differ); 2 distinct parameters but turn rates equal in consecutive pairs
+      cls == k % 3
+      long == IF "long" \in DOMAIN s THEN s.long ELSE {}
   IN [links |-> [id \in {LinkId(j) : j \in DOMAIN E} |->
                    LET j == CHOOSE j \in DOMAIN E : LinkId(j) = id
-                       N == SegCount(j, k)  c == VslOf(j, k, N)
+                       N == IF j \in long THEN 12 ELSE SegCount(j, k)  c == VslOf(j, k, N)
+                       u == IF cls = 1 THEN 1 ELSE j       \* table index: one shared slot for the homogeneous class
                    IN [up |-> NodeId(E[j][1]), down |-> NodeId(E[j][2]), N |-> N,
-                       lam |-> RQ(Tab(LamT, j + k), 1), L |-> RParse(Tab(LenT, j + 2 * k)),
-                       rho_max |-> RParse(Tab(RhoMaxT, j + k)), rho_crit |-> RParse(Tab(RhoCritT, j + 3 * k)),
-                       v_free |-> RParse(Tab(VFreeT, j + k)), a |-> IF intA THEN RQ(2, 1) ELSE RParse(Tab(AT, j + k)),
-                       beta |-> RParse(Tab(BetaT, j + k)), ctl |-> c.ctl, vsl |-> c.vsl,
+                       lam |-> RQ(Tab(LamT, j + k), 1), L |-> RParse(Tab(LenT, u + 2 * k)),
+                       rho_max |-> RParse(Tab(RhoMaxT, u + k)), rho_crit |-> RParse(Tab(RhoCritT, u + 3 * k)),
+                       v_free |-> RParse(Tab(VFreeT, u + k)), a |-> IF intA THEN RQ(2, 1) ELSE RParse(Tab(AT, u + k)),
+                       beta |-> CASE cls = 1 -> One [] cls = 2 -> RParse(Tab(PairBetaT, j)) [] OTHER -> RParse(Tab(BetaT, j + k)),
+                       ctl |-> c.ctl, vsl |-> c.vsl,
                        alpha |-> IF c.ctl THEN RQ(1, 10) ELSE Zero]],
       origins |-> [id \in {OrigId(a) : a \in {a \in 1..s.n : s.orig[a] # NoneK}} |->
                    LET a == CHOOSE a \in 1..s.n : OrigId(a) = id
@@ -139,7 +152,7 @@ PointKind(p) == IF p <= Generic THEN "generic"
 \* value of one input slot of net under point (key, kind)
 SlotValue(net, key, kind, slot) ==
   LET U(lo, hi) == RUnif(<<key, slot>>, RQ(lo, 1), RQ(hi, 1))
-      neg == Family = "opts"
+      neg == Family \in {"opts", "neg"}
       coin == HashMod(<<key, slot, "coin">>, 3)
       t == slot[1]
       lk == IF t \in {"rho", "v", "vc"} THEN net.links[slot[2]] ELSE net.links[Pick(Links(net))]
